@@ -201,7 +201,7 @@ def free_id(rng, used, style):
         return min(min(used), 0) - 1 - int(rng.integers(0, 3))
     if style == 'big':
         return max(used) + 1000003
-    cand = [x for x in range(min(used) - 2, max(used) + 4) if x not in used]
+    cand = [x for x in range(min(used) - 2, min(used) + len(used) + 4) if x not in used]
     return cand[int(rng.integers(len(cand)))]
 
 
